@@ -17,6 +17,14 @@ themselves, every other character is ``%XX``.  JSON values are written in prefix
     ent -|i<int>|s<enc>
     comp <type-enc> A.. K..                         component of the last `ent`
     rx s<enc>                                       string given to the three regular expressions
+    step clear <hid> | step replace <path-enc> <newhid> | step reload | step load2
+                                                    (file intree only) between loads of the same file:
+                                                    Handle.clear() of a resource handle; a new handle put
+                                                    under the key of an existing one; the world handle
+                                                    cleared and called again; a second WorldFromFileHandle
+                                                    for the same file, stored next to the first, loaded
+    cls .. base=<cid>                               the class is a subclass of an earlier class (its ev= is
+                                                    the complete mapping, a superset of the base's)
 
 Modes: `file` writes the description as a JSON file and loads it with a WorldFromFileHandle (stored in
 the resource tree by the `tree .. world` line when `intree`); `dict` loads a dictionary holding the
@@ -25,17 +33,18 @@ classes themselves through a WorldHandle whose transform function calls populate
 
 Observations:
     rx <group|-> <group|-> <group|->     groups of OBJECT/RESOURCE/HANDLE_STRING_REGEX.match
+    load <k> reload|load2                a further load starts (its block has the lines below again)
     res ok | res raised <Exception>      outcome of the load
     enabled 0|1                          dispatch_enabled of the returned world
     procs <label:C<cid>,..>              World.processors
     ents <id,..> ; ent <id> <label:C<cid>,..>       World.entities, World.get_components
     inst <label> C<cid> A<n> v.. K<m> k v ..         constructor arguments recorded by the instance
-    loaded <hid,..>                      handles whose load() ran (file mode)
+    loaded <hid,..>                      handles whose load() ran during this load (file mode)
     pre <n>                              callbacks received before dispatching was enabled
     res-enable ok|raised <Exception>
     cb <label> <method> <args>           callback log: () | E<id>,W | HW,W
-Values: JSON tokens, C<cid> class, P<oid> named object, R<hid> loaded value of a handle, H<hid>
-handle, M<mid> sub-map, HW the world handle, W the world.  Labels: i<n> the n-th instance that was
+Values: JSON tokens, C<cid> class, P<oid> named object, R<hid>.<n> value built by the n-th load() of a
+handle, H<hid> handle, M<mid> sub-map, HW the world handle, W the world.  Labels: i<n> the n-th instance that was
 constructed, d0/d1 the default processors.
 """
 import json
@@ -169,6 +178,7 @@ class Scenario:
         self.procs = []       # (type name, args, kwargs)
         self.ents = []        # [id token, [comps]]
         self.rx = []
+        self.steps = []
         for ln in lines:
             t = ln.split()
             if not t:
@@ -180,7 +190,7 @@ class Scenario:
                 d = dict(x.split('=', 1) for x in t[3:])
                 ev = None if d['ev'] == 'none' else dict(
                     p.split(':') for p in d['ev'].split(',') if p and p != '-')
-                self.classes[int(t[1])] = (t[2], int(d['prio']), ev)
+                self.classes[int(t[1])] = (t[2], int(d['prio']), ev, int(d['base']) if 'base' in d else None)
             elif k == 'name':
                 if t[2] == 'cls':
                     self.names.append((dec(t[1]), 'cls', int(t[3])))
@@ -208,6 +218,15 @@ class Scenario:
                 self.ents[-1][1].append((dec(t[1]), a, kw))
             elif k == 'rx':
                 self.rx.append(dec(t[1][1:]))
+            elif k == 'step':
+                if t[1] == 'clear':
+                    self.steps.append(('clear', int(t[2])))
+                elif t[1] == 'replace':
+                    self.steps.append(('replace', dec(t[2]), int(t[3])))
+                elif t[1] in ('reload', 'load2'):
+                    self.steps.append((t[1],))
+                else:
+                    raise ValueError(ln)
             elif k == 'hint':
                 pass
             else:
@@ -259,7 +278,7 @@ class Run:
         self.keep.append(obj)
 
     # ---------------------------------------------------------------- universe
-    def make_class(self, cid, kind, prio, events):
+    def make_class(self, cid, kind, prio, events, base=None):
         run = self
 
         def __init__(self, *args, **kwargs):
@@ -279,9 +298,9 @@ class Run:
         if kind == 'proc':
             ns['process'] = lambda self, dt=1: None
             ns['priority'] = prio
-            cls = type(f'K{cid}', (desper.Processor,), ns)
+            cls = type(f'K{cid}', (desper.Processor if base is None else self.cls[base],), ns)
         else:
-            cls = type(f'K{cid}', (), ns)
+            cls = type(f'K{cid}', () if base is None else (self.cls[base],), ns)
         if events:
             cls = desper.event_handler(**events)(cls)
         elif events is not None:
@@ -291,8 +310,8 @@ class Run:
     def build_universe(self):
         sc = self.sc
         self.cls = {0: desper.OnUpdateProcessor, 1: desper.CoroutineProcessor}
-        for cid, (kind, prio, ev) in sc.classes.items():
-            self.cls[cid] = self.make_class(cid, kind, prio, ev)
+        for cid, (kind, prio, ev, base) in sc.classes.items():
+            self.cls[cid] = self.make_class(cid, kind, prio, ev, base)
         for cid, c in self.cls.items():
             self.register(c, f'C{cid}')
         self.mod = types.ModuleType(sc.module)
@@ -333,8 +352,10 @@ class Run:
             def load(self):
                 self.count += 1
                 r = Res(self.hid)
-                run.register(r, f'R{self.hid}')
+                run.register(r, f'R{self.hid}.{self.count}')
                 return r
+        self.handle_class = CountingHandle
+        self.world_parent, self.world_key = None, None
         self.root = desper.ResourceMap()
         self.register(self.root, 'M0')
         for path, kind, payload in self.sc.tree:
@@ -343,6 +364,7 @@ class Run:
                 # composite key, inserted from the root in one step (intermediate maps are implicit)
                 if world_handle is not None:
                     self.root[path] = world_handle
+                    self.world_parent, self.world_key = world_handle.parent, parts[-1]
                 continue
             parent = self.root
             for p in parts[:-1]:
@@ -358,6 +380,7 @@ class Run:
                 if world_handle is None:
                     continue
                 value = world_handle
+                self.world_parent, self.world_key = parent, parts[-1]
             parent[parts[-1]] = value
 
     # ---------------------------------------------------------------- description
@@ -450,7 +473,7 @@ class Run:
         if self.sc.mode == 'file':
             loaded = []
             for hid in sorted(self.handles):
-                n = self.handles[hid].count
+                n = self.handles[hid].count - self.counts_before.get(hid, 0)
                 if n:
                     loaded.append(str(hid) if n == 1 else f'{hid}x{n}')
             obs.append('loaded ' + (','.join(loaded) or '-'))
@@ -472,6 +495,37 @@ class Run:
         return out + sorted(run, key=key)
 
     # ---------------------------------------------------------------- run
+    def one_load(self, handle, load):
+        """one load and its observation block"""
+        sc = self.sc
+        self.counter = 0
+        self.log = []
+        self.counts_before = {hid: h.count for hid, h in self.handles.items()}
+        try:
+            if sc.mode == 'direct':
+                world = desper.World()
+                desper.populate_world_from_dict(world, self.description(True))
+            else:
+                world = load()
+        except RecursionError:
+            self.obs.append('res raised RecursionError')
+            return
+        except Exception as e:        # noqa
+            self.obs.append('res raised ' + type(e).__name__)
+            return
+        self.obs.append('res ok')
+        self.dump(world, handle)
+        self.obs.append(f'pre {len(self.log)}')
+        if sc.mode != 'direct':
+            try:
+                world.dispatch_enabled = True
+                self.obs.append('res-enable ok')
+            except Exception as e:    # noqa
+                self.obs.append('res-enable raised ' + type(e).__name__)
+        cbs = [self.show_cb(world, handle, e) for e in self.log]
+        for c in self.canon(cbs):
+            self.obs.append('cb ' + ' '.join(c))
+
     def go(self):
         from desper.model import world as mw
         sc = self.sc
@@ -503,30 +557,32 @@ class Run:
                     lambda h, w: desper.populate_world_from_dict(w, desc))
             if handle is not None:
                 self.register(handle, 'HW')
-            try:
-                if sc.mode == 'direct':
-                    world = desper.World()
-                    desper.populate_world_from_dict(world, self.description(True))
+            self.one_load(handle, lambda: handle())
+            k = 2
+            for st in sc.steps:
+                if st[0] == 'clear':
+                    self.handles[st[1]].clear()
+                elif st[0] == 'replace':
+                    parts = st[1].split('/')
+                    parent = self.root
+                    for p in parts[:-1]:
+                        parent = parent.maps[p]
+                    value = self.handle_class(st[2])
+                    self.handles[st[2]] = value
+                    self.register(value, f'H{st[2]}')
+                    parent[parts[-1]] = value
+                elif st[0] == 'reload':
+                    self.obs.append(f'load {k} reload')
+                    handle.clear()
+                    self.one_load(handle, lambda: handle())
+                    k += 1
                 else:
-                    world = handle()
-            except RecursionError:
-                self.obs.append('res raised RecursionError')
-                return self.obs, []
-            except Exception as e:        # noqa
-                self.obs.append('res raised ' + type(e).__name__)
-                return self.obs, []
-            self.obs.append('res ok')
-            self.dump(world, handle)
-            self.obs.append(f'pre {len(self.log)}')
-            if sc.mode != 'direct':
-                try:
-                    world.dispatch_enabled = True
-                    self.obs.append('res-enable ok')
-                except Exception as e:    # noqa
-                    self.obs.append('res-enable raised ' + type(e).__name__)
-            cbs = [self.show_cb(world, handle, e) for e in self.log]
-            for c in self.canon(cbs):
-                self.obs.append('cb ' + ' '.join(c))
+                    self.obs.append(f'load {k} load2')
+                    other = desper.WorldFromFileHandle(handle.filename)
+                    self.register(other, f'HW{k}')
+                    self.world_parent[f'{self.world_key}~{k}'] = other
+                    self.one_load(other, lambda: other())
+                    k += 1
             return self.obs, []
         finally:
             shutil.rmtree(tmp, ignore_errors=True)
